@@ -528,6 +528,29 @@ def boundary_values(g: Gen, d):
         out += [("uint8-max-member", np.uint8(min(n - 1, 255))), ("int8-max-member", np.int8(min(n - 1, 127))),
                 ("uint8-array", np.asarray(min(n - 1, 200), dtype=np.uint8)), ("int16-at-n", np.int16(min(n, 30000))),
                 ("bool-true", np.bool_(True)), ("float16-zero", np.float16(0.0))]
+    # ... and in integer dtypes WIDER than the default integer type: the value decides, not its image under a
+    # wrapping cast (uint32 max is not -1, 2^32 + 1 is not 1, 2^32 is not 0)
+    if k == "discrete":
+        out += [("uint32-max", np.uint32(2 ** 32 - 1)), ("uint32-2^31", np.uint32(2 ** 31)),
+                ("int64-2^32+1", np.int64(2 ** 32 + 1)), ("int64-2^32", np.int64(2 ** 32)),
+                ("int64-neg-2^32+1", np.int64(-2 ** 32 + 1)), ("uint64-2^32+1", np.uint64(2 ** 32 + 1)),
+                ("uint32-array-max", np.asarray(2 ** 32 - 1, dtype=np.uint32)), ("int64-member", np.int64(0))]
+    elif k == "md":
+        m = len(d["nvec"])
+        for nm, v, dt in (("uint32-max", 2 ** 32 - 1, np.uint32), ("int64-2^32+1", 2 ** 32 + 1, np.int64),
+                          ("int64-2^32", 2 ** 32, np.int64), ("uint64-2^32+1", 2 ** 32 + 1, np.uint64)):
+            a = np.zeros(m, dtype=dt)
+            a[m - 1] = v
+            out.append((nm + "-last", a))
+        out.append(("int64-member", np.zeros(m, dtype=np.int64)))
+    elif k == "mb":
+        shape = tuple(d["shape"])
+        out += [("int64-2^32+1", np.full(shape, 2 ** 32 + 1, dtype=np.int64)), ("int64-2^32", np.full(shape, 2 ** 32, dtype=np.int64)),
+                ("uint32-max", np.full(shape, 2 ** 32 - 1, dtype=np.uint32)), ("uint64-ones", np.ones(shape, dtype=np.uint64))]
+    elif k == "box":
+        shape = tuple(d["shape"])
+        out += [("int64-2^32", np.full(shape, 2 ** 32, dtype=np.int64)), ("int64-neg-2^32", np.full(shape, -2 ** 32, dtype=np.int64)),
+                ("uint32-max", np.full(shape, 2 ** 32 - 1, dtype=np.uint32)), ("uint64-2^32+1", np.full(shape, 2 ** 32 + 1, dtype=np.uint64))]
     return out
 
 
